@@ -66,7 +66,7 @@ def main():
         ],
         "checks": checks,
         "not_applicable": [],
-        "notes": "All properties are decided by the same framework (DESIGN.md). A broken proof obligation or correspondence triggers a search for a concrete failing input against the Lean specification; see DESIGN §4. Genuine defects found on the original tree were repaired by `fix:` commits in /repo and are listed as fixed in known_findings.json.",
+        "notes": "All properties are decided by the same framework (DESIGN.md). A broken proof obligation or correspondence triggers a search for a concrete failing input against the Lean specification; see DESIGN §4. Genuine defects found on the original tree were repaired by `fix:` commits in /repo and are listed as fixed in known_findings.json; one genuine deviation is recorded there as known instead of repaired (C08: five lenient FEN field forms are accepted, DESIGN 11.2) and is printed as KNOWN-FINDING lines by the C08 check.",
     }
     with open(os.path.join(VERIF, "MANIFEST.json"), "w") as f:
         json.dump(man, f, indent=1)
